@@ -96,8 +96,13 @@ class Run:
                     self.name = name
                 self.cap_fails = {}
                 self.cap_calls = {}
+                self.h_len = 3
                 self.table = table                # tag -> [duration, capacity, cost]
                 self.hook_requests = hook_requests  # tag -> [('start'|'end', target name, tag)]
+
+            def __len__(self):
+                # (a rack's length is the number of tools on it: some targets are empty, i.e. falsy)
+                return self.h_len
 
             def get_work_order_duration(self, tag):
                 d = self.table[tag][0]
@@ -138,6 +143,8 @@ class Run:
             hooks = {tag: [tuple(x) for x in lst] for tag, lst in t.get('hooks', {}).items()}
             self.targets[name] = HTarget(name, t['table'], hooks, t.get('nameless', False))
             self.targets[name].cap_fails = dict(t.get('cap_fails') or {})
+            if t.get('falsy'):
+                self.targets[name].h_len = 0
         self.ref = RefMaintainer(float('inf') if case['capacity'] is None else case['capacity'])
         self.bus.attach(self)
         self.failed = False
@@ -332,6 +339,8 @@ def gen_case(rng, tie):
         targets[n] = {'table': table, 'hooks': hooks, 'nameless': rng.random() < 0.15}
         if rng.random() < 0.15:
             targets[n]['cap_fails'] = {rng.choice(tags): rng.choice([1, 2, 3])}
+        if rng.random() < 0.2:
+            targets[n]['falsy'] = True
     horizon = 20.0
     n_req = rng.randint(5, 40)
     if rng.random() < 0.03:
